@@ -76,6 +76,12 @@ class C14(Prop):
 
     def cases(self, tier, seed, shard, nshards):
         cfgs = configs()
+        # the duration of a pair has nothing to do with where the host is: every zone of the tz database, a handful of pairs each
+        import zoneinfo
+
+        zones = sorted(zoneinfo.available_timezones())
+        for zi in range(shard, len(zones), nshards):
+            yield {"all_zones": zones[zi]}
         for s in range(shard, 1440, nshards):
             yield {"start": s, "seed": seed, "config": 0, "full": True}
         r = env.rng("C14", seed, "cfg")
@@ -90,6 +96,28 @@ class C14(Prop):
                 i += 1
 
     def run_case(self, case, acc, ctx):
+        if case.get("all_zones"):
+            zone = case["all_zones"]
+            calc = self.tools.calc_duration
+            try:
+                clock.set_zone(zone)
+                pairs = [(0, 60), (0, 1), (1, 0), (2, 3), (0, 0), (1439, 0), (0, 1439), (60, 0), (720, 721), (3, 1), (1, 2), (0, 2), (2, 0), (30, 29), (1380, 60)]
+                for s_, e_ in pairs:
+                    acc.ev()
+                    acc.distinct()
+                    try:
+                        got = calc(hhmm(s_), hhmm(e_))
+                    except Exception as exc:
+                        acc.violation("raised", f"calc_duration({hhmm(s_)},{hhmm(e_)}) with host zone {zone} raised {type(exc).__name__}: {exc}", {"zone": zone})
+                        continue
+                    if got != want(s_, e_):
+                        acc.violation("wrong-duration:zone-or-date-dependent", f"calc_duration({hhmm(s_)},{hhmm(e_)}) = {got!r} with host zone {zone}, want {want(s_, e_)}",
+                                      {"zone": zone, "start": hhmm(s_), "end": hhmm(e_), "got": got})
+                acc.count("zones_of_the_tz_database_visited")
+            finally:
+                clock.set_zone("UTC")
+            self.rec.drain()
+            return
         zone, now = self.cfgs[case["config"]]
         if now is None:
             clock.set_zone("UTC")
